@@ -17,10 +17,11 @@ import CnvVerif.Driver.Vcf
 import CnvVerif.Driver.Descriptives
 import CnvVerif.Driver.Haar
 import CnvVerif.Driver.Stats
+import CnvVerif.Driver.RangesExt
 open Lean CnvVerif.Drv
 
 def handlers : List (String → Json → Option Json → R (Option Json)) :=
-  [handleInterval, handleCall, handleSegFilter, handleTile, handleCenter, handleFix, handleAccess, Genes.handleGenes, handleFormats, handleExport, Reference.handleReference, handleCoverage, handleEffects, handleBins, handleVcf, handleDescriptives, Haar.handleHaar, handleStats]
+  [handleInterval, handleCall, handleSegFilter, handleTile, handleCenter, handleFix, handleAccess, Genes.handleGenes, handleFormats, handleExport, Reference.handleReference, handleCoverage, handleEffects, handleBins, handleVcf, handleDescriptives, Haar.handleHaar, handleStats, handleRangesExt]
 
 def dispatch (op : String) (inp : Json) (impl : Option Json) : R Json := do
   for h in handlers do
